@@ -49,13 +49,13 @@ type x4Real interface {
 type x4Comp struct {
 	module   string
 	checks   map[int][2]string
-	defaults func() x4Op                               // every packet field with its neutral value (all lines carry all fields)
-	results  func() map[string]any                     // neutral result fields
-	mk       func() x4Real                             // a fresh real object
-	expect   func(st map[string]any) map[string]any    // TLC state (variables + act) -> the fields compared after a replayed step
-	class    func(ev map[string]any) string            // coverage class of an executed event
-	genCfg   string                                    // <Module>_Gen.cfg
-	opOfAct  func(act map[string]any) (x4Op, error)    // TLC act -> op
+	defaults func() x4Op                            // every packet field with its neutral value (all lines carry all fields)
+	results  func() map[string]any                  // neutral result fields
+	mk       func() x4Real                          // a fresh real object
+	expect   func(st map[string]any) map[string]any // TLC state (variables + act) -> the fields compared after a replayed step
+	class    func(ev map[string]any) string         // coverage class of an executed event
+	genCfg   string                                 // <Module>_Gen.cfg
+	opOfAct  func(act map[string]any) (x4Op, error) // TLC act -> op
 }
 
 type x4Scenario struct {
@@ -96,7 +96,7 @@ func x4Num(v any) int {
 	}
 	return 0
 }
-func x4Bool(v any) bool { b, _ := v.(bool); return b }
+func x4Bool(v any) bool  { b, _ := v.(bool); return b }
 func x4Str(v any) string { s, _ := v.(string); return s }
 func x4List(v any) []any {
 	switch l := v.(type) {
@@ -340,9 +340,9 @@ func x4SpecLeg(env *vk.Env, book *x2Book, module string, quick, thorough []strin
 // ------------------------------------------------------------------ legs A and B of one component
 
 type x4Sizes struct {
-	behaviours, depth    int // leg A
-	histories, ops, haz  int // leg B
-	partsA, partsB       int
+	behaviours, depth   int // leg A
+	histories, ops, haz int // leg B
+	partsA, partsB      int
 }
 
 func x4Legs(env *vk.Env, book *x2Book, c *x4Comp, sz x4Sizes, plain func(seed int64, id, nops int, x *x4Exec), hazard func(seed int64, id int, x *x4Exec), base int) {
